@@ -84,6 +84,9 @@ pub struct Node {
     /// How far below its durable applied index the application reports `Config.applied` at the
     /// next restart (it then de-duplicates the entries handed out again).
     pub under_report: u64,
+    /// The application's apply worker is stalled (a fault that stops in the fair suffix):
+    /// committed entries stay queued and `advance_apply_to` is not called.
+    pub apply_hold: bool,
 }
 
 impl Node {
@@ -103,6 +106,8 @@ pub struct Flight {
     pub class: MsgClass,
     pub sent_step: usize,
     pub dup: bool,
+    /// A copy of this message has already been delivered; this one is the late duplicate.
+    pub late: bool,
 }
 
 #[derive(Default)]
@@ -112,6 +117,10 @@ pub struct Net {
     /// blocked[from][to]
     pub blocked: [[bool; 16]; 16],
     pub fifo: bool,
+    /// One in `echo_snapshots` snapshot messages is duplicated by the network at once; the copy
+    /// arrives late (0 = never). `echo_state` is the network's own little PRNG.
+    pub echo_snapshots: u64,
+    pub echo_state: u64,
 }
 
 impl Net {
@@ -153,6 +162,8 @@ pub enum Action {
     Restart(usize),
     RestartUnder(usize, u64),
     Partition(u64),
+    /// Additionally cuts every link of one node id.
+    Isolate(u64),
     Heal,
     Checkpoint(usize),
     Compact(usize, u64),
@@ -258,6 +269,7 @@ impl Sim {
             light_committed: Vec::new(),
             async_recs: VecDeque::new(),
             apply_q: VecDeque::new(),
+            apply_hold: false,
             conf: Rc::new(Conf::default()),
             stopped: false,
             crash_mid_send: false,
@@ -375,7 +387,10 @@ impl Sim {
         );
         // The call belonged to the machinery of a specific property: the panic is also that
         // property's failure (its own monitor never got to see the result of the call).
-        let owner: Option<&'static str> = if opname.starts_with("step(MsgSnapshot") || opname.starts_with("reportsnapshot") {
+        let owner: Option<&'static str> = if loc.contains("tracker/inflights.rs") {
+            // the in-flight window's own guard fired: flow control let one send too many through
+            Some("C13")
+        } else if opname.starts_with("step(MsgSnapshot") || opname.starts_with("reportsnapshot") {
             Some("C15")
         } else if opname.starts_with("step(MsgReadIndex") || opname.starts_with("read_index") {
             Some("C08")
@@ -414,6 +429,7 @@ impl Sim {
         n.light_committed.clear();
         n.async_recs.clear();
         n.apply_q.clear();
+        n.apply_hold = false;
         n.stage = Stage::Idle;
         n.crash_mid_send = false;
         n.snap_out.clear();
@@ -449,6 +465,42 @@ impl Sim {
                 None
             }
             Ok(r) => {
+                // Reading the node's state back (views, log contents) uses the library's own
+                // query functions; if one of them trips an internal check the state is corrupt.
+                let observed = catch_unwind(AssertUnwindSafe(|| self.observe_after(v, &pre, &op, to_res(&r))));
+                match observed {
+                    Ok(true) => Some(r),
+                    Ok(false) => None,
+                    Err(_) => {
+                        let (msg, loc) = LAST_PANIC.with(|p| p.borrow_mut().take()).unwrap_or_default();
+                        let name = format!("observe-after-{}", op.short());
+                        self.log(format!("n{} {} => PANIC while reading state: {}", self.nodes[v].id, name, msg));
+                        let id = self.nodes[v].id;
+                        if loc.contains("/repo/") {
+                            self.mon.violation(
+                                "C14",
+                                "queries-never-panic",
+                                format!("log-query-panicked@{}", strip_line(&loc)),
+                                format!("node {}: reading the log after {} panicked at {}: {}", id, op.short(), loc, msg),
+                                id,
+                                self.step,
+                            );
+                        }
+                        self.report_panic(v, &name, msg, loc);
+                        if self.mon.has_fatal() || self.harness_error.is_some() {
+                            self.aborted = true;
+                        }
+                        None
+                    }
+                }
+            }
+        }
+    }
+
+    /// Post-call observation: refresh the cached configuration, take the view, run the monitors.
+    fn observe_after(&mut self, v: usize, pre: &View, op: &Op, res: Res) -> bool {
+        {
+            {
                 let node = &mut self.nodes[v];
                 node.calls += 1;
                 let raw = node.raw.as_ref().unwrap();
@@ -466,13 +518,12 @@ impl Sim {
                                 op.short()
                             ));
                             self.aborted = true;
-                            return None;
+                            return false;
                         }
                         node.conf = Rc::new(c);
                     }
                 }
                 let post = view_of(raw, &node.conf);
-                let res = to_res(&r);
                 if self.trace_cap > 0 {
                     let id = node.id;
                     let s = format!(
@@ -499,11 +550,11 @@ impl Sim {
                 }
                 let nodes = &self.nodes;
                 let step = self.step;
-                self.mon.after_call(nodes, v, &pre, &post, &op, &res, step);
+                self.mon.after_call(nodes, v, pre, &post, op, &res, step);
                 if self.mon.has_fatal() {
                     self.aborted = true;
                 }
-                Some(r)
+                true
             }
         }
     }
@@ -548,6 +599,26 @@ impl Sim {
                 ));
             }
             let inc = self.nodes[v].inc;
+            if m.get_msg_type() == MessageType::MsgSnapshot && self.net.echo_snapshots > 0 {
+                let mut x = self.net.echo_state | 1;
+                x ^= x << 13;
+                x ^= x >> 7;
+                x ^= x << 17;
+                self.net.echo_state = x;
+                if x % self.net.echo_snapshots == 0 {
+                    let id2 = self.net.next_id;
+                    self.net.next_id += 1;
+                    self.net.flights.push(Flight {
+                        id: id2,
+                        m: m.clone(),
+                        from_inc: inc,
+                        class,
+                        sent_step: self.step,
+                        dup: true,
+                        late: true,
+                    });
+                }
+            }
             self.net.flights.push(Flight {
                 id,
                 m,
@@ -555,6 +626,7 @@ impl Sim {
                 class,
                 sent_step: self.step,
                 dup: false,
+                late: false,
             });
         }
         if self.mon.has_fatal() {
@@ -638,7 +710,7 @@ impl Sim {
     }
 
     fn do_apply(&mut self, v: usize, k: usize) -> bool {
-        if !self.nodes[v].idle() || self.nodes[v].apply_q.is_empty() {
+        if !self.nodes[v].idle() || self.nodes[v].apply_q.is_empty() || self.nodes[v].apply_hold {
             return false;
         }
         let mut last = 0;
@@ -647,6 +719,16 @@ impl Sim {
                 Some(e) => e,
                 None => break,
             };
+            // The node may have accepted a snapshot (in `step`) after these entries were handed
+            // out; the snapshot covers them, and calling `apply_conf_change` for one of them would
+            // change the configuration the snapshot has just installed. Like TiKV (which skips
+            // conf-change results below `raft_log.first_index()`), the apply worker drops them;
+            // the application state jumps when the snapshot Ready is written.
+            let first = self.nodes[v].raw.as_ref().map(|r| r.raft.raft_log.first_index()).unwrap_or(0);
+            if e.index < first {
+                self.mon.stats.inc("app.queued_entries_covered_by_accepted_snapshot_dropped");
+                continue;
+            }
             last = e.index;
             self.app_apply(v, &e);
             if self.aborted || !self.nodes[v].up() {
@@ -1034,6 +1116,7 @@ impl Sim {
                 let fl = if matches!(a, Action::Dup(_)) {
                     let mut f = self.net.flights[i].clone();
                     f.dup = true;
+                    self.net.flights[i].late = true;
                     f
                 } else if self.net.fifo {
                     self.net.flights.remove(i)
@@ -1299,6 +1382,20 @@ impl Sim {
                 self.log(format!("PARTITION mask={:b}", mask));
                 true
             }
+            Action::Isolate(id) => {
+                let a = *id as usize;
+                if a == 0 || a >= 16 {
+                    return false;
+                }
+                for b in 1..16usize {
+                    if b != a {
+                        self.net.blocked[a][b] = true;
+                        self.net.blocked[b][a] = true;
+                    }
+                }
+                self.log(format!("ISOLATE n{}", id));
+                true
+            }
             Action::Heal => {
                 self.net.blocked = Default::default();
                 self.log("HEAL".into());
@@ -1503,6 +1600,9 @@ impl Sim {
         self.mon.stats.inc("net.delivered");
         if fl.dup {
             self.mon.stats.inc("net.duplicated");
+        }
+        if fl.late && m.get_msg_type() == MessageType::MsgSnapshot {
+            self.mon.stats.inc("net.late_duplicate_snapshots_delivered");
         }
         let m2 = m.clone();
         self.call(
